@@ -179,14 +179,40 @@ class ReplaySlice:
         return val ^ (neg % 2 == 1)
 
     # ---- stores into the state that survive
+    def state_aliases(self) -> Dict[str, str]:
+        """Locals that, on this slice, only ever hold an object read from the state (`a = S.get(k)` / `a = S[k]`): name -> key text.
+        A store INTO such an object is a store into the recorded state."""
+        live = {id(s) for s in self.stmts}
+        defs: Dict[str, List[ast.AST]] = {}
+        for n, v, st in assignments(self.f.node, nested=True):
+            if id(st) in live:
+                defs.setdefault(n, []).append(strip_casts(v))
+        out = {}
+        for n, vs in defs.items():
+            keys = []
+            for v in vs:
+                if isinstance(v, ast.Call) and isinstance(v.func, ast.Attribute) and v.func.attr == "get" and self._is_S(v.func.value) and v.args:
+                    keys.append(norm(v.args[0]))
+                elif isinstance(v, ast.Subscript) and self._is_S(v.value):
+                    keys.append(norm(v.slice))
+                else:
+                    keys = None
+                    break
+            if keys:
+                out[n] = keys[0]
+        return out
+
     def state_stores(self) -> List[Tuple[ast.stmt, str]]:
         out = []
+        aliases = self.state_aliases() if self.present else {}
         for st in self.stmts:
             if isinstance(st, (ast.Assign, ast.AugAssign, ast.AnnAssign)):
                 tgts = st.targets if isinstance(st, ast.Assign) else [st.target]
                 for t in tgts:
                     if isinstance(t, ast.Subscript) and self._is_S(t.value):
                         out.append((st, norm(t.slice)))
+                    elif isinstance(t, ast.Subscript) and isinstance(t.value, ast.Name) and t.value.id in aliases:
+                        out.append((st, f"{aliases[t.value.id]}[{norm(t.slice)}]"))   # an entry of a recorded container
             elif isinstance(st, ast.Delete):
                 for t in st.targets:
                     if isinstance(t, ast.Subscript) and self._is_S(t.value):
